@@ -1,74 +1,122 @@
 (* C17 — property theorems only.  Each is closed by [exact] of a lemma proved in
    C17/Proofs*.v and followed by Print Assumptions.
    Notation: K = max backup_count 1 (the handler never keeps fewer than one
-   backup); bk fs i / live fs = lines of <path>.i / <path> ([] when missing);
+   backup); bk fs i / live fs = records of <path>.i / <path> ([] when missing);
    retained K fs = bk K ++ ... ++ bk 1 ++ live (backups oldest..newest, then the
-   live file); r_written ops = the lines written by the history. *)
-From MV Require Import C17.Model C17.Proofs.
+   live file).  code_msg_max_len = sizeof(buf) = MUGGLE_LOG_MSG_MAX_LEN, taken from
+   the headers on every run (gen/Params_C17.v).  A message wants m_len bytes
+   (ANY length); r_records / t_records = the records the write functions hand to
+   fwrite after the truncation of the code (r_log / t_log = format, truncate,
+   write). *)
+From MV Require Import C17.Model C17.Proofs gen.Params_C17.
 Local Open Scope Z_scope.
 
-(* After ANY history of writes and restarts (restarts may change max_bytes), for
-   any max_bytes, backup_count and pre-existing files: the backups oldest..newest
-   followed by the live file are a contiguous suffix of everything written
-   (pre-existing lines count as written first): whole lines, original order; and
-   when the lines are distinct no line occurs twice in the files. *)
+(* side condition of the truncation theorems on the constant of the code:
+   buf[ret - 1] with ret = sizeof(buf) - 1 needs sizeof(buf) >= 2 *)
+Theorem code_msg_max_len_ok : (2 <=? code_msg_max_len) = true.
+Proof. vm_compute. reflexivity. Qed.
+Print Assumptions code_msg_max_len_ok.
+
+(* Truncation, byte level, with the buffer size of the code, for a formatted line
+   of EVERY length (body without newline/NUL + one newline): the bytes handed to
+   fwrite end in exactly one newline, what precedes it is a prefix of the line
+   without newline or NUL, the record has at most sizeof(buf) - 1 bytes, and its
+   length is exactly what the record-level model adds to the offset (wlen):
+   the whole line when it fits (length < sizeof(buf)), sizeof(buf) - 1 bytes
+   otherwise -- in particular for a line of exactly sizeof(buf) bytes. *)
+Theorem rot_record_is_one_terminated_line : forall body : list Z,
+  (forall c, In c body -> c <> NL /\ c <> NUL) ->
+  exists pre, record_bytes (Z.to_nat code_msg_max_len) (body ++ [NL]) = pre ++ [NL] /\
+              (exists rest, body = pre ++ rest) /\
+              (forall c, In c pre -> c <> NL /\ c <> NUL) /\
+              Z.of_nat (length (pre ++ [NL])) <= code_msg_max_len - 1 /\
+              Z.of_nat (length (pre ++ [NL])) = wlen code_msg_max_len (Z.of_nat (length (body ++ [NL]))).
+Proof. exact (record_terminated_Z code_msg_max_len code_msg_max_len_ok). Qed.
+Print Assumptions rot_record_is_one_terminated_line.
+
+(* ... for every buffer size >= 2, with the explicit shape of the record *)
+Theorem rot_record_whole_when_it_fits : forall (B : nat) (body : list Z),
+  (2 <= B)%nat ->
+  let text := body ++ [NL] in
+  let w := Z.to_nat (wlen (Z.of_nat B) (Z.of_nat (length text))) in
+  record_bytes B text = firstn (w - 1) body ++ [NL] /\
+  length (record_bytes B text) = w /\
+  (w <= B - 1)%nat /\
+  ((length text < B)%nat -> record_bytes B text = text).
+Proof. exact record_bytes_spec. Qed.
+Print Assumptions rot_record_whole_when_it_fits.
+
+(* After ANY history of writes (messages of any length) and restarts (restarts
+   may change max_bytes), for any max_bytes, backup_count and pre-existing
+   files: the backups oldest..newest followed by the live file are a contiguous
+   suffix of all records (pre-existing ones count as written first): whole
+   records, original order; and when the messages are distinct no record occurs
+   twice in the files. *)
 Theorem rot_concat_is_suffix : forall fs0 mb bc ops,
   let K := Kof bc in
-  let h := r_run (r_init fs0 mb bc) ops in
+  let h := r_run_log code_msg_max_len (r_init fs0 mb bc) ops in
   exists lost,
-    retained K fs0 ++ r_written ops = lost ++ retained K (r_fs h) /\
-    (NoDup (map m_id (retained K fs0 ++ r_written ops)) -> NoDup (map m_id (retained K (r_fs h)))).
-Proof. exact rot_suffix. Qed.
+    retained K fs0 ++ r_records code_msg_max_len ops = lost ++ retained K (r_fs h) /\
+    (NoDup (map m_id (retained K fs0) ++ map m_id (r_written ops)) -> NoDup (map m_id (retained K (r_fs h)))).
+Proof. exact (rot_log_suffix code_msg_max_len). Qed.
 Print Assumptions rot_concat_is_suffix.
 
 (* What is discarded is exactly the segments older than the K most recently
-   closed ones, where segments are defined by the specification sp_*: the line
-   sequence is cut whenever the open segment has reached max_bytes (tested after
-   every write and at every start).  <path>.i is the i-th newest closed segment,
-   <path> the open one. *)
+   closed ones, where segments are defined by the specification sp_*: the record
+   sequence is cut whenever the bytes WRITTEN to the open segment have reached
+   max_bytes (tested after every write and at every start).  <path>.i is the
+   i-th newest closed segment, <path> the open one. *)
 Theorem rot_discards_only_beyond_backups : forall fs0 mb bc ops,
   let K := Kof bc in
-  let h := r_run (r_init fs0 mb bc) ops in
-  let s := sp_run (sp_init K fs0 mb) ops in
+  let h := r_run_log code_msg_max_len (r_init fs0 mb bc) ops in
+  let s := sp_run (sp_init K fs0 mb) (map (rop_clamp code_msg_max_len) ops) in
   (forall i, (1 <= i <= K)%nat -> bk (r_fs h) i = nth (i - 1) (sp_closed s) []) /\
   fs_get sname_eqb SLive (r_fs h) = Some (sp_live s) /\
-  retained K fs0 ++ r_written ops = concat (rev (skipn K (sp_closed s))) ++ retained K (r_fs h).
-Proof. exact rot_refines_segments. Qed.
+  retained K fs0 ++ r_records code_msg_max_len ops = concat (rev (skipn K (sp_closed s))) ++ retained K (r_fs h).
+Proof. exact (rot_log_segments code_msg_max_len). Qed.
 Print Assumptions rot_discards_only_beyond_backups.
 
 (* backup_count = 0: one backup, <path>.1, is kept all the same (it holds the
    most recently closed segment); no other <path>.i (i >= 2) is ever created,
    changed or removed. *)
 Theorem rot_backup_count_zero : forall fs0 mb ops,
-  let h := r_run (r_init fs0 mb 0) ops in
-  let s := sp_run (sp_init 1 fs0 mb) ops in
+  let h := r_run_log code_msg_max_len (r_init fs0 mb 0) ops in
+  let s := sp_run (sp_init 1 fs0 mb) (map (rop_clamp code_msg_max_len) ops) in
   bk (r_fs h) 1 = hd [] (sp_closed s) /\
   fs_get sname_eqb SLive (r_fs h) = Some (sp_live s) /\
   (forall i, (2 <= i)%nat -> fs_get sname_eqb (SBak i) (r_fs h) = fs_get sname_eqb (SBak i) fs0) /\
-  retained 1 fs0 ++ r_written ops = concat (rev (tl (sp_closed s))) ++ bk (r_fs h) 1 ++ live (r_fs h).
-Proof. exact rot_bc_zero. Qed.
+  retained 1 fs0 ++ r_records code_msg_max_len ops = concat (rev (tl (sp_closed s))) ++ bk (r_fs h) 1 ++ live (r_fs h).
+Proof. exact (rot_log_bc_zero code_msg_max_len). Qed.
 Print Assumptions rot_backup_count_zero.
 
+(* every record written by a history is shorter than the buffer *)
+Theorem rot_records_below_limit : forall ops,
+  Forall (fun m => 0 <= m_len m) (r_written ops) ->
+  Forall (fun r => 0 <= m_len r <= code_msg_max_len - 1) (r_records code_msg_max_len ops).
+Proof. exact (fun ops => r_records_bounded_b code_msg_max_len ops code_msg_max_len_ok). Qed.
+Print Assumptions rot_records_below_limit.
+
 (* Time rotation (repaired code).  For every unit, rotate_mod, zone mode and
-   zone offset, every history of writes and restarts whose line times do not run
-   backwards within a handler lifetime (well_timed), and pre-existing files that
-   are themselves correctly filed: every line of every file lies in the file
-   whose name denotes the period (unit, rotate_mod, zone mode) of the line's
-   time stamp. *)
+   zone offset, every history of writes (messages of any length) and restarts
+   whose line times do not run backwards within a handler lifetime (well_timed),
+   and pre-existing files that are themselves correctly filed: every record of
+   every file lies in the file whose name denotes the period (unit, rotate_mod,
+   zone mode) of the record's time stamp. *)
 Theorem trot_line_in_own_period : forall fs0 clock0 u md local tz ops,
   files_ok u md local tz fs0 ->
   well_timed clock0 ops ->
-  let h := t_run (t_init fs0 clock0 u md local tz) ops in
+  let h := t_run_log code_msg_max_len (t_init fs0 clock0 u md local tz) ops in
   forall n c m, fs_get tname_eqb n (t_fs h) = Some c -> In m c ->
     period_of_name md n = period_key u md (brokendown local tz (m_ts m)).
-Proof. exact trot_in_own_period. Qed.
+Proof. exact (trot_log_in_own_period code_msg_max_len). Qed.
 Print Assumptions trot_line_in_own_period.
 
-(* ... and no line is lost: every line written is in some file (with the time
-   the handler used for it).  Needs no assumption on the times. *)
+(* ... and no record is lost: every record written is in some file (with the
+   time the handler used for it).  Needs no assumption on the times. *)
 Theorem trot_every_line_stored : forall fs0 clock0 u md local tz ops l,
-  In l (t_lines ops) -> stored (t_fs (t_run (t_init fs0 clock0 u md local tz) ops)) l.
-Proof. exact trot_stored. Qed.
+  In l (t_records code_msg_max_len ops) ->
+  stored (t_fs (t_run_log code_msg_max_len (t_init fs0 clock0 u md local tz) ops)) l.
+Proof. exact (trot_log_stored code_msg_max_len). Qed.
 Print Assumptions trot_every_line_stored.
 
 (* Two times with the same file name lie in the same period (a file never mixes
